@@ -97,6 +97,11 @@ def _case(draw, tier):
         if cand and cand not in ids and not any(ch.isspace() for ch in cand):
             ids[2] = cand
             rels[1] = "split"
+    # one case in eight: two pids that are the PATHS OF TWO EXISTING FILES with equal content (an identifier is a
+    # string, whatever it happens to name on the host)
+    if draw(st.integers(0, 7)) == 0:
+        ids[0], ids[1] = seq.PIDFILE[0], seq.PIDFILE[1]
+        rels[0] = "twin-files"
     return {"cfg": cfg, "ids": ids, "fmts": fmts, "rels": rels,
             "contents": [{"hex": "7368617265642d6f626a656374"}, {"hex": "6f74686572"}],
             "docs": [{"hex": "6d30"}, {"hex": "6d31"}, {"hex": ""}],
@@ -150,8 +155,9 @@ def _disk_of(run, alpha, y):
 
 
 def run_case(case, ctx):
-    ids, fmts = case["ids"], case["fmts"]
+    fmts = case["fmts"]
     run = seq.Run(case, ctx)
+    ids = [run.rp(x) for x in case["ids"]]
     parent = run.work
     outside0 = {k: v for k, v in common.snapshot(parent).items()
                 if not k.startswith("store/") and k != "store/"}
@@ -196,6 +202,15 @@ def run_case(case, ctx):
             if j != i and _disk_of(run, a0, y) != _disk_of(run, a1, y):
                 ctx.violation("bystander-files-changed", f"{d}: files of bystander {repr(y)[:80]} changed: "
                               f"{_disk_of(run, a0, y)} -> {_disk_of(run, a1, y)}", {"op": k})
+        # location derived from hashes of the identifier STRING only
+        if is_ok(r.out) and k in ("store", "tag") and run.cfg.H(x) not in a1["pidrefs"]:
+            ctx.violation("reference-not-at-hash-of-identifier", f"{d}: the call returned normally but there is no pid reference "
+                          f"at shard(H(pid)); pid references now {sorted(h[:10] for h in a1['pidrefs'])}", {"op": k})
+        if is_ok(r.out) and k == "smeta":
+            f = run.cfg.ns if real.get("fmt") is None else real["fmt"]
+            if (run.cfg.H(x), run.cfg.H(x + f)) not in a1["metadata"]:
+                ctx.violation("document-not-at-hash-of-identifier", f"{d}: the call returned normally but there is no document at "
+                              f"shard(H(pid))/H(pid+format)", {"op": k})
         misplaced = [p for p in a1["residue"] if "/tmp/" not in p and not p.endswith("_delete")]
         if misplaced:
             ctx.violation("file-not-at-hash-location", f"{d}: {misplaced[:4]}", {"op": k})
